@@ -106,7 +106,7 @@ def meta(tier):
                 'replayed twice. Part B: the same programs x 4 formats through the real CLI for hash seeds 0..3 (thorough 0..15) x 2 (thorough 3) '
                 'working directories x every permutation of the include directories x {bare, cluttered, optimized (PYTHONOPTIMIZE=2, PYTHONUTF8=1)} environment, and every combination of spellings of the include '
                 'directories (relative, ./, through a detour, the same directory twice under two spellings); '
-                'plus the pretty print on standard output (pipe vs pseudo-terminal vs file) for a program with terminal control sequences in comments and strings; plus the repository\'s example programs under their own definitions (quick: the small ones) x formats x hash seeds with rotating environment and working directory; non-trivial = execution whose schedule or environment differs from the reference execution; '
+                'plus an include directory spelled ~/inc under three values of HOME; plus the pretty print on standard output (pipe vs pseudo-terminal vs file) for a program with terminal control sequences in comments and strings; plus the repository\'s example programs under their own definitions (quick: the small ones) x formats x hash seeds with rotating environment and working directory; non-trivial = execution whose schedule or environment differs from the reference execution; '
                 'states = distinct (program, format, number of choice points); transitions = executions',
         'bounds': {'programs': [p[0] for p in PROGRAMS], 'hash_seeds': 4 if q else 16, 'deviating_choice_points': 1 if q else 2},
         'assumptions': ['sets are created by set(...) calls, set displays or set comprehensions inside bespokeasm (that is what the import '
@@ -224,6 +224,7 @@ def shard(acc, tier, idx, n):
     spellings(acc, idx, n, ctr, q)
     corpus_end_to_end(acc, idx, n, q)
     stdout_listing(acc, idx, n)
+    home_independence(acc, idx, n)
 
 
 def spellings(acc, idx, n, ctr0, q):
@@ -296,6 +297,39 @@ def corpus_end_to_end(acc, idx, n, q):
                     msg = diff_msg(ref, out, f'example program {prog[0]} [{fmt}] seed={seed} cwd={cwd} env={envname}')
                     acc.violation([ref_case, ref_case], spec, msg[:600], [ref, out])
                 acc.judge(clause='end-to-end', nontrivial_key=('corpus', prog[0], fmt, seed))
+
+
+def home_independence(acc, idx, n):
+    """An include directory spelled with a leading tilde on the command line is a directory name like any other (the shell, not the
+    assembler, expands tildes): the same files are found whatever HOME says, also when HOME holds a file of the same name."""
+    import shutil
+    files = {'main.asm': ' nop\n#include "defs.asm"\n .byte MAGIC\n', '~/inc/defs.asm': 'MAGIC = $11\n',
+             'ha/inc/defs.asm': 'MAGIC = $22\n', 'hb/inc/defs.asm': 'MAGIC = $33\n'}
+    for k, fmt in enumerate(FORMATS_B):
+        if (k + 1) % n != idx:
+            continue
+        case = Case(ISA, files, incdirs=('=~/inc',), pretty=fmt)
+        outs = []
+        for home in ('ha', 'hb', None):
+            root = tempfile.mkdtemp(prefix='bespokeverif_c15h_', dir='/dev/shm' if os.path.isdir('/dev/shm') else None)
+            try:
+                env = {'PYTHONHASHSEED': '0'}
+                if home is not None:
+                    env['HOME'] = os.path.join(root, 'w', home)
+                outs.append(world.run_cli(case, env_extra=env, cwd='<work>', env_base=BARE, root=root))
+            finally:
+                shutil.rmtree(root, ignore_errors=True)
+            acc.count_eval(1, outs[-1].status)
+            acc.transition()
+        msg = None
+        for name, o in zip(('HOME=<work>/hb', 'HOME=/nonexistent'), outs[1:]):
+            if not same(outs[0], o):
+                msg = diff_msg(outs[0], o, f'-I ~/inc [{fmt}] with HOME=<work>/ha vs {name}')
+                break
+        if msg:
+            spec = {'type': 'home', 'format': fmt}
+            acc.violation([case], spec, msg[:600], outs[:2])
+        acc.judge(clause='end-to-end', nontrivial_key=('home', fmt))
 
 
 def _run_stdout(case, mode, root):
@@ -387,6 +421,17 @@ def confirm(viol):
         out = world.run_cli(Case.from_json(viol['cases'][1]), env_extra={'PYTHONHASHSEED': str(spec['seed'])}, cwd=spec['cwd'],
                             env_base=ENVS[spec['env']])
         return judge(spec, [ref, out]), [ref, out]
+    if spec['type'] == 'home':
+        import shutil
+        case = Case.from_json(viol['cases'][0])
+        outs = []
+        for home in ('ha', 'hb'):
+            root = tempfile.mkdtemp(prefix='bespokeverif_c15h_', dir='/dev/shm' if os.path.isdir('/dev/shm') else None)
+            try:
+                outs.append(world.run_cli(case, env_extra={'PYTHONHASHSEED': '0', 'HOME': os.path.join(root, 'w', home)}, cwd='<work>', env_base=BARE, root=root))
+            finally:
+                shutil.rmtree(root, ignore_errors=True)
+        return judge(spec, outs), outs
     if spec['type'] == 'stdout':
         case = Case.from_json(viol['cases'][0])
         root = tempfile.mkdtemp(prefix='bespokeverif_c15_', dir='/dev/shm' if os.path.isdir('/dev/shm') else None)
